@@ -600,6 +600,17 @@ class Affine:
                         pass
                     else:
                         so.pop(("len", rk), None)
+        # ... and through a `&mut Vec` handed over in any other position (`reader.read_to_end(&mut buf)`): the callee may grow or
+        # shrink it, so its length afterwards is a new unknown (not the old one, and not the atom an untracked vector gets)
+        for ai, a in enumerate(args):
+            if ai == 0 or ai >= len(tys) or not tys[ai].startswith("&mut") or "Vec<" not in tys[ai]:
+                continue
+            ap = op_place(a)
+            if ap is None or name in LEN_PRESERVING:
+                continue
+            rk = self.len_key(ap)
+            if rk is not None:
+                so[("len", rk)] = Form.atom(("len", "%s@bb%d" % (self._len_name(rk), bb)))
         outs = []
         for s in b.succs(bb):
             outs.append((s, so if s == t["target"] else dict(st)))
